@@ -346,6 +346,12 @@ class Prop(common.PropertyCheck):
                 return 'robust CV != IQR/median'
             if 'gstd' in want and not close(r['gcv'][j], math.sqrt(math.exp(math.log(r['gstd'][j]) ** 2) - 1), 1e-9):
                 return 'geometric CV != sqrt(exp(ln(gstd)^2)-1)'
+            # inequalities proved over the reals for every positive column (Properties/C12c.lean): min <= gmean <= mean <= max
+            if 'gmean' in want:
+                tolr = 1e-5 if impl.get('single_precision') else 1e-9
+                g, mu = r['gmean'][j], r['mean'][j]
+                if not (min(xs) * (1 - tolr) <= g <= mu * (1 + tolr) and mu <= max(xs) * (1 + tolr)):
+                    return 'min <= geometric mean <= mean <= max violated in channel %d: min %r, gmean %r, mean %r, max %r' % (j, min(xs), g, mu, max(xs))
         return None
 
     def model_request(self, case, impl):
